@@ -129,10 +129,13 @@ class EllWP(IterWP):
         return f
 
     def h_isfinite(self, wp, node, args, callee):
-        v = real_of(self, self.ev(args[0]))
-        if v not in self.finite:
-            raise Unsupported(f'{self.name}: std::isfinite of something that is not the value of an evaluation')
-        return V(self.finite[v], 'Bool', 'bool')
+        return V(self.finite_of(real_of(self, self.ev(args[0]))), 'Bool', 'bool')
+
+    def finite_of(self, term):
+        """the `isfinite` flag of a value: one arbitrary boolean per distinct term (the value of an evaluation got its flag in h_vgrad)"""
+        if term not in self.finite:
+            self.finite[term] = self.fresh('Bool', 'is_finite', 'bool').t
+        return self.finite[term]
 
     def h_update_if_better(self, wp, node, args, obj):
         st = self.state_var(obj)
@@ -141,9 +144,7 @@ class EllWP(IterWP):
         x, g, f = self.ev(args[0]), self.ev(args[1]), real_of(self, self.ev(args[2]))
         if not (isinstance(x, AV) and isinstance(g, AV)) or isinstance(x, RV) or isinstance(g, RV):
             raise Unsupported(f'{self.name}: update_if_better of something that is not (vector, vector, scalar)')
-        fin = self.finite.get(f)
-        if fin is None:
-            raise Unsupported(f'{self.name}: update_if_better with a value that is not the result of an evaluation')
+        fin = self.finite_of(f)
         old = self.env[st + '.fx'].t
         better = f'(and {fin} (< {f} {old}))'
         self.updates.append({'state': st, 'x': list(x.c), 'g': list(g.c), 'f': f, 'guard': self.guard, 'old_fx': old})
